@@ -132,3 +132,48 @@ package components
 //@   loop 0 invariant stable: p == old(p) && scanner != nil && p.outParamPorts == old(p.outParamPorts) && p.outParamPorts["param"] == old(p.outParamPorts["param"]) && wfSrcParamOut(p.BaseProcess, "param") && err == nil && readerOf(scannerSource(scanner)) == out
 //@   loop 0 invariant pos: 0 <= scanPos[scanner] && scanPos[scanner] <= scanTotal(scanner)
 //@   loop 0 invariant so-far: poutN[p.outParamPorts["param"]] == old(poutN[p.outParamPorts["param"]]) + scanPos[scanner] && (forall j int :: 0 <= j && j < scanPos[scanner] ==> poutAt[p.outParamPorts["param"]][old(poutN[p.outParamPorts["param"]]) + j] == scanLine(scanner, j))
+
+// IPSelectorSync: lock-step read of one item per in-port; a tuple is forwarded (each member on the out-port named like
+// its in-port) only if every member satisfies the predicate, and is dropped as a whole otherwise.
+// The predicate is assumed to be a function of the IP (selIncludes).
+//@ ghost func selIncludes(ip *FileIP) bool
+//@ extern fieldcall:IPSelectorSync.includeFunc(ip) (res)
+//@   deterministic by-contract the selection predicate is a function of the IP
+//@   ensures def: res == selIncludes(ip)
+
+//@ chaninv map[string]*FileIP sel-tuple-members-valid: $v != nil && (forall k string :: k in $v ==> validIP($v[k]))
+
+//@ func (*IPSelectorSync).Out(p, name) (res)
+//@   props C19
+//@   requires connected: p.outPorts != nil && name in p.outPorts
+//@   ensures def: res == p.outPorts[name]
+
+//@ func (*IPSelectorSync).recvOneEach(p) (ips, ok)
+//@   props C19
+//@   requires wf: wfInPorts(p.inPorts)
+//@   modifies *
+//@   ensures one-receive-per-port[C19]: forall k string :: k in old(p.inPorts) ==> chanRecvN(old(p.inPorts)[k].Chan) == old(chanRecvN(p.inPorts[k].Chan)) + ite(old(chanRecvN(p.inPorts[k].Chan)) < chanTotal(old(p.inPorts)[k].Chan), 1, 0)
+//@   ensures all-or-nothing[C19]: ok <==> (forall k string :: k in old(p.inPorts) ==> old(chanRecvN(p.inPorts[k].Chan)) < chanTotal(old(p.inPorts)[k].Chan))
+//@   ensures aligned-items-in-arrival-order[C19]: ips != nil && (forall k string :: k in old(p.inPorts) && old(chanRecvN(p.inPorts[k].Chan)) < chanTotal(old(p.inPorts)[k].Chan) ==> k in ips && ips[k] == chanInAt(old(p.inPorts)[k].Chan, old(chanRecvN(p.inPorts[k].Chan))))
+//@   ensures only-port-names[C19]: forall k string :: k in ips ==> k in old(p.inPorts)
+//@   ensures members-valid: ok ==> forall k string :: k in ips ==> validIP(ips[k])
+//@   loop 0 invariant stable: p == old(p) && p.inPorts == old(p.inPorts) && wfInPorts(p.inPorts) && ips != nil && fresh(ips) && oks != nil && fresh(oks) && ips != oks && (forall k string :: k in p.inPorts ==> p.inPorts[k] == old(p.inPorts[k]) && p.inPorts[k].Chan == old(p.inPorts[k].Chan))
+//@   loop 0 invariant vis: forall k string :: $visited[k] ==> k in p.inPorts
+//@   loop 0 invariant done: forall k string :: $visited[k] ==> chanRecvN(p.inPorts[k].Chan) == old(chanRecvN(p.inPorts[k].Chan)) + ite(old(chanRecvN(p.inPorts[k].Chan)) < chanTotal(p.inPorts[k].Chan), 1, 0)
+//@   loop 0 invariant not-yet: forall k string :: k in p.inPorts && !$visited[k] ==> chanRecvN(p.inPorts[k].Chan) == old(chanRecvN(p.inPorts[k].Chan))
+//@   loop 0 invariant all-ok: allOk <==> (forall k string :: $visited[k] ==> old(chanRecvN(p.inPorts[k].Chan)) < chanTotal(p.inPorts[k].Chan))
+//@   loop 0 invariant items: forall k string :: $visited[k] && old(chanRecvN(p.inPorts[k].Chan)) < chanTotal(p.inPorts[k].Chan) ==> k in ips && ips[k] == chanInAt(p.inPorts[k].Chan, old(chanRecvN(p.inPorts[k].Chan))) && validIP(ips[k])
+//@   loop 0 invariant only-ports: forall k string :: k in ips ==> $visited[k]
+//@   loop 1 invariant results-kept: p == old(p) && ips != nil
+
+//@ func (*IPSelectorSync).Run(p)
+//@   props C19
+//@   requires wf: p.outPorts != nil && p.inPorts != nil && (forall k string :: k in p.inPorts ==> k in p.outPorts) && (forall o string :: o in p.outPorts ==> p.outPorts[o] != nil && wfOutPort(p.outPorts[o]))
+//@   modifies *
+//@   atcall (*OutPort).Send forwards-only-tuples-whose-members-all-pass[C19]: forall k string :: k in ips ==> selIncludes(ips[k])
+//@   atcall (*OutPort).Send member-goes-to-the-out-port-named-like-its-in-port[C19]: $arg1 == ips[iname] && $arg0 == p.outPorts[iname]
+//@   loop 0 invariant stable: p == old(p) && p.outPorts == old(p.outPorts) && p.outPorts != nil
+//@   loop 1 invariant passed-so-far: forall k string :: $visited[k] ==> k in ips && selIncludes(ips[k])
+//@   loop 1 invariant stable: p == old(p) && p.outPorts == old(p.outPorts) && ips != nil
+//@   loop 2 invariant all-pass: forall k string :: k in ips ==> selIncludes(ips[k])
+//@   loop 2 invariant stable: p == old(p) && p.outPorts == old(p.outPorts) && ips != nil
